@@ -35,7 +35,13 @@ func c05TableCase() []string {
 	return ops
 }
 
-func c05Op(rng *rand.Rand) string { return c06RandOp(rng, true) }
+// the request mix of C06 plus an occasional CompactSwamp
+func c05Op(rng *rand.Rand) string {
+	if rng.Intn(30) == 0 {
+		return "compact"
+	}
+	return c06RandOp(rng, true)
+}
 
 func c05Gen(rng *rand.Rand, tier string, w *bufio.Writer) {
 	cases, length, idleCases := 40, 24, 2
@@ -62,6 +68,30 @@ func c05Gen(rng *rand.Rand, tier string, w *bufio.Writer) {
 	// replaced by the new treasure, which is then dropped from the write buffer unwritten
 	emit("p1", []string{"set 11 k0|i64:5||||| k1|i64:6|||||", "close", "del k0", "inc i64 k0 1 - - -", "del k0", "getall", "close", "getall", "count"})
 	emit("p0", []string{"set 11 k0|i64:5||||| k1|i64:6|||||", "close", "del k0", "inc i64 k0 1 - - -", "del k0", "getall", "close", "getall", "count"})
+	// a reloaded record receives a Set that changes nothing but the modification stamps (every "changed"
+	// flag of the live object is clear at that point, so only the stamp comparison can queue the rewrite)
+	for _, k := range []string{"p1", "p0"} {
+		emit(k, []string{"set 11 k0|i64:5|a1000000000|u1|a2000000000|u1| k1|str:61|||||", "close",
+			"set 11 k0|i64:5|||a3000000000|u2| k1|str:61||||u3|", "get k0 k1", "close", "get k0 k1",
+			"set 11 k0|i64:5|||a4000000000|| k1|str:61|||a5000000000||", "restart", "getall"})
+	}
+	// CompactSwamp in the middle of a session: ten records written, all rewritten (half of the file is dead
+	// entries), the forced compaction, then a create, an update and a delete that must survive the reload.
+	// p1t: the ticker has flushed before the compaction (writer open, buffer empty); p0: every write is flushed
+	// at once; p1: everything is still buffered
+	{
+		var a, b []string
+		for i := 0; i < 10; i++ {
+			a = append(a, fmt.Sprintf("c%d|i64:%d|a1000000000||||", i, i+1))
+			b = append(b, fmt.Sprintf("c%d|i64:%d|||a2000000000||", i, i+101))
+		}
+		tail := []string{"compact", "set 11 late|i64:4242|a3000000000||||", "set 11 c0|i64:999|||a3000000000||", "del c1", "getall"}
+		ops := append([]string{"set 11 " + strings.Join(a, " "), "wait 2500", "set 11 " + strings.Join(b, " "), "wait 2500"}, tail...)
+		emit("p1t", append(append([]string{}, ops...), "wait 2500", "close", "getall", "count"))
+		ops = append([]string{"set 11 " + strings.Join(a, " "), "set 11 " + strings.Join(b, " ")}, tail...)
+		emit("p0", append(append([]string{}, ops...), "close", "getall", "count"))
+		emit("p1", append(append([]string{}, ops...), "close", "getall", "compact", "inc i64 c0 1 - - -", "restart", "getall"))
+	}
 	// the write ticker (kind p1t, 1 s): the same delete / re-create / delete around ticker runs, zero-like
 	// values written by the ticker rather than by close, and one random history; a wait of 2.5 s
 	// precedes every request whose outcome depends on what the ticker has written
@@ -97,6 +127,30 @@ func c05Gen(rng *rand.Rand, tier string, w *bufio.Writer) {
 		}
 		ops = append(ops, "getall", closer)
 		ops = append(ops, readBack()...)
+		if rng.Intn(3) == 0 {
+			// re-send values of earlier Sets to the reloaded records with nothing but new stamps
+			last := map[string]string{}
+			for _, o := range ops {
+				if f := strings.Split(o, " "); f[0] == "set" {
+					for _, it := range f[2:] {
+						if p := strings.Split(it, "|"); len(p) == 7 {
+							last[p[0]] = p[1]
+						}
+					}
+				}
+			}
+			var items []string
+			for _, k := range c06Keys {
+				if v, ok := last[k]; ok && rng.Intn(2) == 0 {
+					items = append(items, fmt.Sprintf("%s|%s|||%s|%s|", k, v,
+						c06Pick(rng, []string{"", "a7000000000", "a8000000000"}), c06Pick(rng, []string{"", "u7", "u8"})))
+				}
+			}
+			if len(items) > 0 {
+				ops = append(ops, "set 11 "+strings.Join(items, " "), "getall", closer)
+				ops = append(ops, readBack()...)
+			}
+		}
 		if rng.Intn(3) == 0 {
 			for j, l := 0, 3+rng.Intn(8); j < l; j++ {
 				ops = append(ops, c05Op(rng))
